@@ -19,13 +19,6 @@ Definition eds_of (s : strategy) (name_set : bool) : eds :=
 Definition validate_code (s : strategy) : N :=
   match validate s with Ok _ => 0%N | Error c => c | Panic _ => 99%N end.
 
-(** kubelet-shaped pod statuses: a non-zero last state carries [Terminated]; a pod with container
-    statuses has a start time (the malformed shapes make [HighestRestartCount] / [manageCanaryPodFailures]
-    dereference nil: input assumption of C06, outside "every spec") *)
-Definition pod_shape_ok (p : pod) : bool :=
-  forallb (fun cs => match cs_last cs with LTNoTerm => false | _ => true end) (p_cstats p) &&
-  (match p_cstats p with [] => true | _ => match p_start p with Some _ => true | None => false end end).
-
 Definition chk (c : case) : list N :=
   match c with
   | W accepted (CErs sn obs) =>
